@@ -444,6 +444,20 @@ func c19Run(r *sim.Run) {
 		return
 	}
 	c19CheckBytes(r, data, model)
+	// the same init written to a device that refuses one write (and accepts the later ones): "it encodes" must not be
+	// claimed for bytes that never arrived
+	if t.Chance(300) {
+		probe := sim.NewSink(nil)
+		if init.Encode(probe) == nil && probe.Writes > 0 {
+			s := sim.NewSink(r)
+			s.FailAtOp = 1 + t.Draw(probe.Writes)
+			var e error
+			r.Guard("Encode(write error)", func() { e = init.Encode(s) })
+			if e == nil && s.Failed {
+				r.Violate("c19-encode-swallowed-write-error", "Encode of the built init reported success although write #%d of %d was refused (%d of %d bytes arrived)", s.FailAtOp, probe.Writes, len(s.Buf), len(data))
+			}
+		}
+	}
 	// transport and decode (both paths, seeded delivery)
 	cfg := sim.DrawDelivery(t)
 	viaSR := t.Bool()
